@@ -2,6 +2,7 @@ use crate::runner::Property;
 
 pub mod c01;
 pub mod c03;
+pub mod c05;
 pub mod c15;
 pub mod common;
 
@@ -9,6 +10,7 @@ pub fn by_id(id: &str) -> Option<Box<dyn Property>> {
     match id {
         "C01" => Some(Box::new(c01::C01)),
         "C03" => Some(Box::new(c03::C03)),
+        "C05" => Some(Box::new(c05::C05)),
         "C15" => Some(Box::new(c15::C15)),
         _ => None,
     }
